@@ -22,6 +22,11 @@ CHECKS = {
    text="Every list of up to 4 (thorough 5) entries per rule field (C01 alphabet plus the empty string and duplicates, near-miss request values included) and every pair of fields (lists up to 2/3) goes through the real plugin's Admit(); for every request value of the field(s) clusters.RuleMatches must give the same verdict for the submitted and the stored rule; Admit(Admit(x)) must equal Admit(x) and nothing outside the rules may change except defaulting. Differential, so independent of the meaning of the matcher.",
    ref="DESIGN.md §6 C17",
    note="Trusted: admission.NewAttributesRecord/ObjectInterfacesFromScheme stand in for the API server's admission chain; token and request alphabets of h/rulekit."),
+ "C14": dict(cat="model_checking", engine="vsched+xstate",
+   technique="stateless model checking of concurrent Pop() calls on the instrumented ClusterInfo (preemption-bounded DFS) + explicit-state BFS of pick/readiness-flip histories with the map iteration order as an enumerated choice",
+   text="Engine B: on a real ClusterInfo with an explicit upstream subset, every history of picks and readiness flips (k=2,3,4; depth 9/9/8, thorough 12/12/11) must be strictly balanced in every window of every stable segment; without a subset, every pick chooses one of the k! iteration orders of the endpoint map (Go leaves the order unspecified) and the BFS runs over canonical (count differences, real cursors mod k) states to depth 40 (k=2) / 14 (k=3) with the deviation bound k!. Engine A: 2-3 concurrent pickers x 1-2 picks (thorough up to 3x2, bound 3) over k=2,3 endpoints incl. one unready, every interleaving up to 2 preemptions, statement-level points in Pop: the N picks must be distributed floor/ceil and never hit an unready endpoint.",
+   ref="DESIGN.md §6 C14",
+   note="Trusted: shim semantics of sync.Map/atomic (sequential consistency), add-only read hook VerifCursor, set-up outside the scheduler (vsched.Passthrough). Statement-level points only in Pop and syncEndpoints; elsewhere sync operations are the points."),
 }
 def manifest():
     checks = []
